@@ -71,6 +71,11 @@ pub fn vp_extend_map<'b, T, U, F: FnMut(T) -> U>(dst: &mut Vec<U>, src: alloc::v
         forall|k: int| 0 <= k < drain_items(&src).len() ==> f.ensures((drain_items(&src)[k],), #[trigger] final(dst)@[old(dst)@.len() + k]),
 { unimplemented!() }
 
+/// a slice holds at most usize::MAX elements (its `len()` is a usize)
+#[verifier::external_body]
+pub proof fn axiom_slice_len_bound<T>(s: &[T])
+    ensures s@.len() <= usize::MAX,
+{}
 /// a vector of non-zero-sized elements holds fewer than usize::MAX elements (allocation limit isize::MAX bytes)
 #[verifier::external_body]
 pub proof fn axiom_vec_len_bound<T>(v: &Vec<T>)
